@@ -83,7 +83,7 @@ func (t *ServerTransport) Handshake(_ *parser.Packet, w http.ResponseWriter, r *
 	}
 	if len(packet.Data) > 0 {
 		data := new(clientOpenPacketData)
-		err = json.Unmarshal(packet.Data, &data)
+		err = json.Unmarshal(packet.Data, data)
 		if err != nil {
 			return "", err
 		}
